@@ -14,7 +14,7 @@ var c17Types = []string{"AudioLevelExtension", "TransportCCExtension", "PlayoutD
 func c17(c *Ctx) {
 	p, r := c.Prog, c.R
 	r.Explain = "BITS: Marshal/Unmarshal bit provenance vs the specification tables; BOUNDS: Unmarshal total; " +
-		"RESET R1: every field decoded on some path is defined on every success path (receiver-independent result)."
+		"RESET R1: every field decoded on some path is defined on every success path (receiver-independent result). CTR.total: Marshal fails only outside the range table; CTR.size: exact wire size."
 	nf := 0
 	var entries []*ssa.Function
 	for _, tn := range c17Types {
